@@ -28,6 +28,9 @@ func NewGoAsm(cfg Config) Printer {
 }
 
 func (p *goasm) Print(f *ir.File) ([]byte, error) {
+	// Start from a clean state, so that a printer can be used more than once.
+	*p = goasm{cfg: p.cfg}
+
 	p.header(f)
 	for _, s := range f.Sections {
 		switch s := s.(type) {
